@@ -232,6 +232,14 @@ pub fn hover_type(path: &Path, src: &str, line: u32, col: u32) -> Result<String,
         }
     }
 
+    // What is left is answered by name: the type of the function or constructor the word names.
+    // That is an answer only where the word can name one - in the name of a function
+    // declaration and in a path used as an expression - and not for a field, a type, a method
+    // of a trait or a word of a comment that happens to be spelled like some function.
+    if !token.as_ref().is_some_and(names_a_value) {
+        return Err("no type information found".to_string());
+    }
+
     if let Some(token) = token.as_ref()
         && let Some(segments) = path_segments_from_token(token)
         && let Some(ty) = lookup_type_from_segments(&genv, &segments)
@@ -1035,6 +1043,27 @@ fn colon_colon_inherent_methods(
     }
     items.sort_by(|a, b| a.name.cmp(&b.name));
     items
+}
+
+/// Whether the identifier stands where a function or constructor is named: the name of a
+/// top-level function or extern declaration, or a path that is an expression.
+fn names_a_value(token: &MySyntaxToken) -> bool {
+    if token.kind() != MySyntaxKind::Ident {
+        return false;
+    }
+    let Some(parent) = token.parent() else {
+        return false;
+    };
+    match parent.kind() {
+        MySyntaxKind::FN => parent
+            .parent()
+            .is_some_and(|item_parent| item_parent.kind() == MySyntaxKind::FILE),
+        MySyntaxKind::EXTERN => true,
+        _ => parent
+            .ancestors()
+            .find(|node| node.kind() != MySyntaxKind::PATH)
+            .is_some_and(|node| node.kind() == MySyntaxKind::EXPR_IDENT),
+    }
 }
 
 fn path_segments_from_token(token: &MySyntaxToken) -> Option<Vec<String>> {
